@@ -84,6 +84,19 @@ CHECKS = {
         "Observes nodes through public attributes only. Sampled over the core grammar; node classes outside it are reached only through dialect-specific parsing of core statements.",
         "DESIGN.md §C12",
     ),
+    "C10": (
+        "property-based testing (Hypothesis typed queries with a generated qualification mask, targeted star/USING/alias-reference/column-list/ambiguity shapes, schema depth 1-3) with structural, idempotence and DuckDB-binder differential oracles; generated-identifier laws over all dialects",
+        "qualify() must raise OptimizeError or return a query that is complete (aliases, visible sources, expanded stars in schema order, unchanged output names), idempotent, and - for DuckDB-dialect cases - executes to the same rows and names as the original on DuckDB, "
+        "raising exactly when DuckDB's binder rejects the original. Identifier normalisation is checked for idempotence and per-strategy folding on generated identifiers in all 34 dialects.",
+        "DuckDB's binder is the independent judge of name resolution; bare columns are only generated when exactly one source of the query owns the name, so ambiguity arises only from the targeted shapes.",
+        "DESIGN.md §C10",
+    ),
+    "C17": (
+        "property-based testing (Hypothesis relation programs with by-construction provenance, rendered as derived tables / CTEs / sources= and with permuted aliases) with an exact-set oracle on lineage leaves",
+        "For every output column of every generated program the set of (table, column) leaves of lineage() must equal the provenance recorded while the query was built, in all three presentations, under alias permutation, and through lineage(None) with its shared cache.",
+        "Provenance = every column referenced inside the projected expression (incl. CASE conditions and a scalar subquery's projection); WHERE/ON columns are not lineage. Nesting <= 4 relations.",
+        "DESIGN.md §C17",
+    ),
     "C14": (
         "property-based testing (Hypothesis scripts of valid/mutated statements x dialects x max_errors; trees x dialect pairs x max_unsupported) with a four-run relational oracle over return values, exceptions and captured 'sqlglot' logger records",
         "Each input is processed under IGNORE, WARN, RAISE and IMMEDIATE by separate Parser/Generator objects; the relation of the property (who raises when, what the message contains, equality of trees/texts, error_level restored) is checked against the records WARN logged.",
